@@ -59,4 +59,11 @@ theorem C07_stream_total (c : Cfg) (h1 : 1 ≤ c.parse.minLen) (h8 : 8 ≤ c.par
     obtain ⟨outs, h2, h3⟩ := C07_stream_total c h1 h8 hn hwf ls st'
     exact ⟨o :: outs, by simp [processAll, bind, Except.bind, ho, h2, pure, Except.pure], by simp [h3]⟩
 
+/-! ### fact obligations (Tie B): the listener's error paths -/
+
+/-- a connection that ends for any reason other than the stop request has its sink closed and then its socket
+closed (`connAborter.Signal`): no descriptor leaks, the accept loop keeps running -/
+theorem C07_fact_conn_error_path : Facts.reload_conn_close_order = ["recvChan.Flush", "recvChan.Close", "connAborter.Signal"] ∧
+    Facts.c07_error_condition = ["util.IsNetworkClosed(readErr) && listener.stopRequest.Peek()"] := by decide
+
 end C07
